@@ -11,9 +11,12 @@ Dimensions (alphabet sizes quick | thorough):
   perms  41 | 85  <uses-permission> lists over {android.permission.X, android.permission.Y, X with maxSdkVersion=18 (typed int),
                   dot-less CUSTOM}: every ordered list of length <= 2 plus every multiset of size 3 (thorough: every ordered
                   list of length <= 3); "X twice" and "X next to X/maxSdk18" are among them
-  act, svc, rcv, prv   16 each   every subset of {".Rel", "NoDot", "com.a.Full", "other.p.C"} as <activity>/<service>/<receiver>/<provider>
-  main   23       additional activities / activity-aliases carrying intent filters: none; MAIN+LAUNCHER on one activity (4 names),
-                  on two (6 pairs), on activity + alias, on an alias only (dotted / dot-less alias name), on an enabled=false
+  act, svc, rcv, prv   21 | 51 each   every subset of {".Rel", "NoDot", "com.a.Full", "other.p.C"} as <activity>/<service>/<receiver>/
+                  <provider>, plus each boundary shape of the dot rule alone: "Trail." (only dot is the last character), "." (lone dot),
+                  "..Two" (two leading dots), "A.B" (inner dot, no package-like prefix), "a" (one dot-less character); thorough: plus
+                  every 2-subset of the 9 names
+  main   28       additional activities / activity-aliases carrying intent filters: none; MAIN+LAUNCHER on one activity (each of the
+                  4 ordinary and 5 boundary names), on two (6 pairs), on activity + alias, on an alias only (dotted / dot-less alias name), on an enabled=false
                   activity (alone / next to an enabled one), enabled=true, MAIN without LAUNCHER, LAUNCHER without MAIN, MAIN and
                   LAUNCHER in two different filters, extra actions/categories, LEANBACK_LAUNCHER only, disabled alias
   sdk    28       no <uses-sdk> element, or (min, target, max) in {absent, typed int, codename string "Q"}^3 (min 21, target 33, max 34)
@@ -26,10 +29,11 @@ Dimensions (alphabet sizes quick | thorough):
 
 Space = for each of two base models (MIN: everything empty/absent; RICH: one of everything) every model that differs from the
 base in at most two dimensions (each dimension at its full alphabet x all pairs of dimensions at their full alphabets);
-thorough adds the full product  pkg x act x svc x rcv x prv x main{none, one MAIN/LAUNCHER activity}  over the MIN base.
+thorough adds the full product  pkg x act x svc x rcv x prv (the 16 subsets of the 4 ordinary names each) x main{none, one
+MAIN/LAUNCHER activity}  over the MIN base.
 
 History dimension (the queries must not depend on what was asked before): for the RICH base and each of its single-dimension
-variations (thorough: also MIN's, and the RICH pairs over act, main, feat, extra) a FRESH APK object is built for every history
+variations (thorough: also MIN's, and the RICH pairs over main, feat, extra) a FRESH APK object is built for every history
   depth 1: each of the 30 public manifest queries in PRE (get_app_name, get_app_icon, get_main_activity, is_androidtv, ...,
            get_intent_filters('activity', <first declared activity>), get_android_manifest_xml)
   depth 2: every ordered pair (repeats included) over PRE2 = get_app_name, is_androidtv, get_main_activity, get_activities,
@@ -78,10 +82,11 @@ MANIFEST = {
                  "query compared with the generating model",
     "text": "Every manifest model that differs from an empty and from a rich base manifest in at most two of 13 dimensions "
             "(package with/without dot, typed/string version attributes, permission lists with duplicates, maxSdkVersion and "
-            "dot-less names, all subsets of relative/dot-less/qualified component names for the four component kinds, 23 "
+            "dot-less names, all subsets of relative/dot-less/qualified component names plus the boundary shapes of the dot rule "
+            "('Trail.', '.', '..Two', 'A.B', 'a') for the four component kinds, 28 "
             "MAIN/LAUNCHER patterns incl. aliases and disabled activities, all 27+1 uses-sdk shapes incl. codenames, features, "
             "libraries, pool encodings) is built into a real APK and every query of the property is compared with the model "
-            "under Android's name completion rule; on ~190 of the models the same judging is repeated after every single other manifest "
+            "under Android's name completion rule; on ~215 of the models the same judging is repeated after every single other manifest "
             "query and every ordered pair of six of them on a fresh object (answers must not depend on the query history).  This level fits because the queries are pure functions of a small tree.",
     "note": "Trusted: gen/axmlgen (validated against shipped files), stdlib zipfile, the stated Android completion rule. "
             "Alias / enabled=false / split-filter treatment of 'main activity' and codename effective targets are bounded, not "
@@ -96,6 +101,10 @@ MAIN_A, LAUNCH_C = "android.intent.action.MAIN", "android.intent.category.LAUNCH
 VIEW_A, DEFAULT_C, LEANBACK_C = "android.intent.action.VIEW", "android.intent.category.DEFAULT", "android.intent.category.LEANBACK_LAUNCHER"
 
 NAMES = [".Rel", "NoDot", "com.a.Full", "other.p.C"]
+# boundary shapes of the dot rule: only dot is the last character, a lone dot, two leading dots, inner dot without a package-like
+# prefix, single dot-less character
+EDGE_NAMES = ["Trail.", ".", "..Two", "A.B", "a"]
+ALL_NAMES = NAMES + EDGE_NAMES
 PX, PY, PX18, PC = ["android.permission.X", None], ["android.permission.Y", None], ["android.permission.X", 18], ["CUSTOM", None]
 PERM_ITEMS = [PX, PY, PX18, PC]
 FEAT_ITEMS = [["android.hardware.camera", None], ["android.hardware.touchscreen", False], ["nodotfeature", None], [None, None]]
@@ -139,6 +148,8 @@ def main_alphabet():
         ("leanback-only", [_act(".M", [[[MAIN_A], [LEANBACK_C]]])]),
         ("disabled-alias", [_act(".M", [ML]), _alias(".Alias", ".M", [ML], en=False)]),
     ]
+    for n in EDGE_NAMES:
+        out.append(("one-" + name_kind(n), [_act(n, [ML])]))
     return out
 
 
@@ -156,7 +167,9 @@ def dims(ctx):
     else:
         perms = [list(p) for r in range(3) for p in itertools.product(PERM_ITEMS, repeat=r)]
         perms += [list(p) for p in itertools.combinations_with_replacement(PERM_ITEMS, 3)]
-    comp = _subsets(NAMES)
+    comp = _subsets(NAMES) + [[n] for n in EDGE_NAMES]          # the first 16 stay the subsets of NAMES
+    if ctx.thorough:
+        comp += [list(c) for c in itertools.combinations(ALL_NAMES, 2) if list(c) not in comp]
     sdk = [None] + [[a, b, c] for a in (None, ["int", 21], ["str", "Q"]) for b in (None, ["int", 33], ["str", "Q"])
                     for c in (None, ["int", 34], ["str", "Q"])]
     feats = _subsets(FEAT_ITEMS)
@@ -326,7 +339,17 @@ def complete(pkg, n):
 
 
 def name_kind(n):
-    return "name-leading-dot" if n.startswith(".") else ("name-no-dot" if "." not in n else "name-dotted")
+    if n == ".":
+        return "name-lone-dot"
+    if n.startswith(".."):
+        return "name-two-leading-dots"
+    if n.startswith("."):
+        return "name-leading-dot"
+    if "." not in n:
+        return "name-no-dot"
+    if n.index(".") == len(n) - 1:
+        return "name-only-dot-last"
+    return "name-dotted"
 
 
 def literal_kind(n):
@@ -510,7 +533,7 @@ def judge(m, stats=None, history=()):
             for f in feats:
                 out.append(("%s:%s" % (api, f), "get_%s() = %r, manifest declares %r -> %r (package %r)"
                             % (api, sorted(g), raws, sorted(complete(pkg, n) for n in raws), pkg)))
-    for n in NAMES:
+    for n in ALL_NAMES:
         g = q("_format_value", lambda: a._format_value(n))
         if g != complete(pkg, n):
             out.append(("format_value:" + name_kind(n), "_format_value(%r) = %r with package %r, Android's rule gives %r"
@@ -598,11 +621,11 @@ def space(ctx):
             "bases": {"MIN": {n: a[0] for n, a, _ in D}, "RICH": {n: a[r] for n, a, r in D}},
             "rule": "all models differing from a base in <= 2 dimensions (singles + all pairs at full alphabets), union over both bases"
                     + ("; plus full product pkg x act x svc x rcv x prv x main{none, one} over MIN" if ctx.thorough else ""),
-            "component_names": NAMES, "permission_items": PERM_ITEMS, "feature_items": FEAT_ITEMS, "library_items": LIB_ITEMS,
+            "component_names": NAMES, "component_edge_names": EDGE_NAMES, "permission_items": PERM_ITEMS, "feature_items": FEAT_ITEMS, "library_items": LIB_ITEMS,
             "main_patterns": [t for t, _ in MAIN_ALPHA], "apks": len(cases(ctx)),
             "history": {"models": len(history_models(ctx)),
                         "models_rule": "RICH base and its single-dimension variations"
-                                       + ("; MIN single-dimension variations; RICH pairs over act, main, feat, extra" if ctx.thorough else ""),
+                                       + ("; MIN single-dimension variations; RICH pairs over main, feat, extra" if ctx.thorough else ""),
                         "depth1_menu": list(PRE), "depth2_menu": PRE2,
                         "histories_per_model": len(histories()),
                         "rule": "on a fresh APK object per history: every single pre-query, every ordered pair (repeats included) of "
@@ -611,7 +634,7 @@ def space(ctx):
 
 def history_models(ctx):
     """model tuples that get the history treatment: the RICH base and its single-dimension variations; thorough adds the
-    single-dimension variations of MIN and all RICH pairs over the dimensions act, main, feat, extra."""
+    single-dimension variations of MIN and all RICH pairs over the dimensions main, feat, extra."""
     D = dims(ctx)
     rich = tuple(r for _, _, r in D)
     out = {rich}
@@ -621,7 +644,7 @@ def history_models(ctx):
             for v in range(len(a)):
                 out.add(base[:i] + (v,) + base[i + 1:])
     if ctx.thorough:
-        sel = [i for i, (n, _, _) in enumerate(D) if n in ("act", "main", "feat", "extra")]
+        sel = [i for i, (n, _, _) in enumerate(D) if n in ("main", "feat", "extra")]
         for i, j in itertools.combinations(sel, 2):
             for vi in range(len(D[i][1])):
                 for vj in range(len(D[j][1])):
@@ -712,7 +735,8 @@ def finalize(ctx, acc):
         if acc.extra.get("prequery_exception:" + h):
             acc.harness_error("pre-query %s raised %d times" % (h, acc.extra["prequery_exception:" + h]))
     # the oracle must be able to tell a wrong answer from a right one: completion rule self-test on fixed points
-    if [complete("com.a", x) for x in NAMES] != ["com.a.Rel", "com.a.NoDot", "com.a.Full", "other.p.C"] or complete("a", "NoDot") != "a.NoDot":
+    if [complete("com.a", x) for x in ALL_NAMES] != ["com.a.Rel", "com.a.NoDot", "com.a.Full", "other.p.C", "Trail.", "com.a.", "com.a..Two",
+                                                     "A.B", "com.a.a"] or complete("a", "NoDot") != "a.NoDot":
         acc.harness_error("reference completion rule broken")
     init_fail = sum(v["count"] for k, v in acc.viol.items() if k.startswith("apk-init:"))
     judged = n - init_fail
